@@ -48,7 +48,7 @@ impl Prop for C19 {
         "exploration"
     }
     fn rule(&self) -> String {
-        "complete enumeration: suites x batch sizes 0..N x 3 key layouts (all distinct keys; 3 keys round-robin; same key on adjacent items) x 3+ messages: the valid batch; one invalid item at EVERY position x 6 kinds; EVERY pair of positions with complementary errors (z+d, z-d) and with swapped responses; oracle: accept <=> every item verifies individually (VerifyingKey::verify and Item::verify_single agree, incl. Taproot odd-R / odd-key items). Tiny field (the probabilistic clause, exactly): EVERY blinder vector in GF(q)^k through the scripted source: a valid batch is accepted by all q^k vectors, an invalid batch (every error pattern incl. cancelling ones) by at most q^(k-1). Non-trivial = batch of >= 1 item verified".into()
+        "complete enumeration: suites x batch sizes 0..N x 3 key layouts (all distinct keys; 3 keys round-robin; same key on adjacent items) x 3+ messages: the valid batch; one invalid item at EVERY position x 6 kinds; EVERY pair of positions with complementary errors (z+d, z-d) and with swapped responses; oracle: accept <=> every item verifies individually (VerifyingKey::verify and Item::verify_single agree, incl. Taproot odd-R / odd-key items). Boundary blinder VALUES (digit boundaries of the multiscalar routine: 2^k, 2^k +- 1, q-1, bit patterns, runs across limb boundaries) are injected through the scripted source. Tiny field (the probabilistic clause, exactly): EVERY blinder vector in GF(q)^k through the scripted source: a valid batch is accepted by all q^k vectors, an invalid batch (every error pattern incl. cancelling ones) by at most q^(k-1). Non-trivial = batch of >= 1 item verified".into()
     }
     fn assumptions(&self) -> Vec<String> {
         vec!["on the real curves the 2^-128 bound is inferred from the generic code + one fresh full-width draw per item (C16); it is decided exactly only on the tiny field; a blinder narrowed after a full-width draw would escape".into()]
